@@ -168,7 +168,7 @@ def solve_conds(conds, i, env):
             yield from solve_conds(conds, i + 1, env)
     elif isinstance(c, Let):
         e = dict(env)
-        e[c.var] = c.e.ev(env)
+        c.bind_into(e, env)
         yield from solve_conds(conds, i + 1, e)
     elif isinstance(c, IfLet):
         ok, bv = c.match(c.e.ev(env))
